@@ -61,6 +61,34 @@ Theorem C20_pinned_lost_update_refuted :
 Proof. exists c20_witness. vm_compute. reflexivity. Qed.
 Print Assumptions C20_pinned_lost_update_refuted.
 
+(* Two operations released together and left to run freely ([Par2 u1 u2], no parking at the hook):
+   with the mutex one cycle follows the other, in an order the scheduler chooses.  For operations on
+   different entities both serialisations give the same specification map and list every key with
+   the same value, in every reachable state - so the model's composition in the order given and the
+   monitor's map stand for both, and the runner compares the data up to the order of its entries. *)
+Theorem C20_free_running_spec_commutes : forall r u1 u2 k, ent_of u1 <> ent_of u2 ->
+  reg_lookup k (spec_apply (spec_apply r u1) u2) = reg_lookup k (spec_apply (spec_apply r u2) u1).
+Proof. exact spec_commutes. Qed.
+Print Assumptions C20_free_running_spec_commutes.
+
+Theorem C20_free_running_data_commutes : forall ops u1 u2 k, ent_of u1 <> ent_of u2 ->
+  let l := data_list (store (fst (run init ops))) in
+  listed (apply_list (apply_list l u1) u2) k = listed (apply_list (apply_list l u2) u1) k.
+Proof. exact par2_commutes_reachable. Qed.
+Print Assumptions C20_free_running_data_commutes.
+
+(* without the mutex the freely running pair loses an update: the monitor rejects the pinned trace *)
+Theorem C20_pinned_free_running_refuted :
+  strictly_accepted (judge minit sinit (snd (run_pinned pinit [Par2 (UAdd 1 1 sup1) (UAdd 2 1 sup1)]))) = false.
+Proof. vm_compute. reflexivity. Qed.
+Print Assumptions C20_pinned_free_running_refuted.
+
+Example C20_free_running_repaired :
+  map snd (snd (run init [Par2 (UAdd 1 1 sup1) (UAdd 2 1 sup1); Read])) =
+    [[Done; RInfo 1 1; RSup sup1; RInfo 2 1; RSup sup1; REnd]; [RInfo 1 1; RSup sup1; RInfo 2 1; RSup sup1; REnd]]%N /\
+  strictly_accepted (judge minit sinit (snd (run init [Par2 (UAdd 1 1 sup1) (UAdd 2 1 sup1); Read]))) = true.
+Proof. vm_compute. split; reflexivity. Qed.
+
 (* the same schedule on the repaired code: the second Begin blocks until the first End *)
 Example C20_witness_repaired :
   map snd (snd (run init c20_witness)) =
